@@ -4,6 +4,8 @@ import (
 	"encoding/binary"
 	"bytes"
 	"fmt"
+	"os"
+	"runtime/debug"
 	"strings"
 	"sync"
 
@@ -33,6 +35,8 @@ func sigIndex(sig []byte) uint32 {
 
 // parallel runs f(i) for i in [0,n) on all cores.
 func parallel(n int, f func(i int)) {
+	var pmu sync.Mutex
+	var first *workerPanic
 	var wg sync.WaitGroup
 	ch := make(chan int, 64)
 	for w := 0; w < 16; w++ {
@@ -40,7 +44,20 @@ func parallel(n int, f func(i int)) {
 		go func() {
 			defer wg.Done()
 			for i := range ch {
-				f(i)
+				func() {
+					// a panic in a worker (a direct library call on inputs the generator considers valid) must not
+					// kill the process: it is handed to the calling goroutine with its stack
+					defer func() {
+						if r := recover(); r != nil {
+							pmu.Lock()
+							if first == nil {
+								first = &workerPanic{r, string(debug.Stack())}
+							}
+							pmu.Unlock()
+						}
+					}()
+					f(i)
+				}()
 			}
 		}()
 	}
@@ -49,6 +66,14 @@ func parallel(n int, f func(i int)) {
 	}
 	close(ch)
 	wg.Wait()
+	if first != nil {
+		panic(first)
+	}
+}
+
+type workerPanic struct {
+	val   interface{}
+	stack string
 }
 
 // ---------------------------------------------------------------- C01
@@ -128,6 +153,10 @@ func seqHistory(from, to int) []int {
 }
 
 func genC01(g *gen) {
+	g.corpusSignatures()
+	if g.thorough {
+		g.tallTreeWalk()
+	}
 	seed := g.bytes(48)
 	// (a) byte-exact whole life against the model, h = 4, all three hash functions
 	g.note("whole life of h=4 keys, all hash functions: every signature compared with the model and verified")
@@ -272,7 +301,56 @@ func genC01(g *gen) {
 
 // ---------------------------------------------------------------- C02
 
+// tallTreeWalk (thorough tier and the search after a broken obligation; implementation only): a height-12 key walked over
+// its whole life by forward jumps with a signature at every stop. Every forward SetIndex below 2^h must be accepted,
+// every Sign below 2^h must return a signature that verifies and advances the index by exactly one. A shared stack or
+// table sized for the small trees of the quick tier shows here (about a minute).
+func (g *gen) tallTreeWalk() {
+	h := 12
+	seed := g.bytes(48)
+	x := newKey(seed, h, 0)
+	pk := x.GetPK()
+	ops := []string{fmt.Sprintf("x.new t %s %d 0 0", hx(seed), h)}
+	n := 1 << uint(h)
+	stops := []int{}
+	for t := 0; t < n; t += 200 + g.rng.Intn(120) {
+		stops = append(stops, t)
+	}
+	stops = append(stops, n-2)
+	for _, t := range stops {
+		if g.stopEarly() {
+			return
+		}
+		if uint32(t) > x.GetIndex() {
+			r := guard(func() string { x.SetIndex(uint32(t)); return "ok" })
+			ops = append(ops, fmt.Sprintf("x.setidx t %d", t))
+			g.check(r == "ok" && x.GetIndex() == uint32(t), "forward-setindex-accepted", fmt.Sprintf("h=%d: a forward SetIndex(%d) below 2^h is refused or leaves the index at %d: %s", h, t, x.GetIndex(), r), ops...)
+			if r != "ok" {
+				return
+			}
+		}
+		for k := 0; k < 2; k++ {
+			idx := x.GetIndex()
+			msg := idxMsg(int(idx))
+			var sig []byte
+			var err error
+			r := guard(func() string { sig, err = x.Sign(msg); return "ok" })
+			ops = append(ops, "x.sign t "+hx(msg))
+			good := r == "ok" && err == nil && x.GetIndex() == idx+1 && sigIndex(sig) == idx
+			g.check(good, "sign-below-limit", fmt.Sprintf("h=%d: Sign at index %d (below 2^h) fails, or the index does not advance by exactly one (now %d): %s %v", h, idx, x.GetIndex(), r, err), ops...)
+			if !good {
+				return
+			}
+			g.check(xmss.Verify(msg, sig, pk), "verify-sign", fmt.Sprintf("h=%d index %d: Verify(msg, Sign(msg), PK) = false", h, idx), ops...)
+		}
+	}
+	g.counts["tall-tree-walk-stops"] = len(stops)
+}
+
 func genC02(g *gen) {
+	if g.thorough {
+		g.tallTreeWalk()
+	}
 	type plan struct{ h, hf, nops int }
 	plans := []plan{{4, 0, 60}, {4, 1, 60}, {4, 2, 40}, {6, 0, 40}, {8, 0, 30}}
 	if g.thorough {
@@ -356,13 +434,16 @@ func genC02(g *gen) {
 // never built (see Xmss.craft in the Lean model: a genuine WOTS key at one leaf, an arbitrary authentication path, the
 // root that path leads to). The model produces it; the library must accept it.
 type craftedTriple struct {
+	w        int
 	h, hf    int
 	idx      uint32
 	msg, sig []byte
 	pk       [67]byte
 }
 
-func (g *gen) craftedTriples(heights []int) []craftedTriple {
+func (g *gen) craftedTriples(heights []int) []craftedTriple { return g.craftedTriplesW(16, heights) }
+
+func (g *gen) craftedTriplesW(w int, heights []int) []craftedTriple {
 	var lines []string
 	var ts []craftedTriple
 	for _, h := range heights {
@@ -377,8 +458,8 @@ func (g *gen) craftedTriples(heights []int) []craftedTriple {
 				idx = uint32(g.rng.Int63n(int64(1) << uint(h)))
 			}
 			msg := g.bytes(1 + g.rng.Intn(33))
-			lines = append(lines, fmt.Sprintf("x.craft %d %d %d %s %s", hf, h, idx, hx(msg), hx(g.bytes(16))))
-			ts = append(ts, craftedTriple{h: h, hf: hf, idx: idx, msg: msg})
+			lines = append(lines, fmt.Sprintf("x.craft %d %d %d %d %s %s", w, hf, h, idx, hx(msg), hx(g.bytes(16))))
+			ts = append(ts, craftedTriple{w: w, h: h, hf: hf, idx: idx, msg: msg})
 		}
 	}
 	outs := modelLines(lines)
@@ -398,6 +479,67 @@ func (g *gen) craftedTriples(heights []int) []craftedTriple {
 	}
 	g.counts["crafted-valid-triples"] += len(r)
 	return r
+}
+
+// xmssCorpus: messages for the zero-seed height-4 key at index 0 whose message digest has an extreme WOTS checksum
+// (below 256: a leading checksum digit of 0 — one digest in 5·10^9; found with `harness wotsscan`), per hash function
+func xmssCorpus() (out []struct {
+	hf  int
+	msg []byte
+	tag string
+}) {
+	dir := os.Getenv("VERIF_DIR")
+	if dir == "" {
+		dir = "/verif"
+	}
+	b, err := os.ReadFile(dir + "/corpus/xmss_boundary.txt")
+	if err != nil {
+		return
+	}
+	for _, l := range strings.Split(string(b), "\n") {
+		f := strings.Fields(l)
+		if len(f) != 2 {
+			continue
+		}
+		t := strings.Split(f[0], "-") // wots-<low|high>-<hf>-<checksum>
+		if len(t) != 4 {
+			continue
+		}
+		hf := int(atoi(t[2]))
+		out = append(out, struct {
+			hf  int
+			msg []byte
+			tag string
+		}{hf, unhex(f[1]), f[0]})
+	}
+	return
+}
+
+// corpusSignatures: every corpus message signed by a fresh zero-seed key (library) and by the independent reference;
+// the library's signature must verify, equal the reference's, and the reference's must be accepted by the library
+func (g *gen) corpusSignatures() {
+	var mu sync.Mutex
+	cs := xmssCorpus()
+	parallel(len(cs), func(i int) {
+		c := cs[i]
+		seed := make([]byte, 48)
+		x := newKey(seed, 4, c.hf)
+		pk := x.GetPK()
+		sig, err := x.Sign(c.msg)
+		ref := rxNewKey(seed, 4, c.hf)
+		want := ref.sign(0, c.msg)
+		var rpk [67]byte
+		copy(rpk[:], ref.pk)
+		v1 := err == nil && xmss.Verify(c.msg, sig, pk)
+		v2 := xmss.Verify(c.msg, want, rpk)
+		ops := []string{fmt.Sprintf("x.new k %s 4 %d 0", hx(seed), c.hf), "x.sign k " + hx(c.msg)}
+		mu.Lock()
+		g.check(v1, "verify-sign", fmt.Sprintf("%s, %s: Verify(msg, Sign(msg), PK) = false for a message whose digest has an extreme WOTS checksum", c.tag, hfName[c.hf]), ops...)
+		g.check(err == nil && bytes.Equal(sig, want), "sign-vs-reference", fmt.Sprintf("%s, %s: the signature differs from the full-tree reference", c.tag, hfName[c.hf]), fmt.Sprintf("xs.sign %s 4 %d 0 %s", hx(seed), c.hf, hx(c.msg)))
+		g.check(v2, "valid-accepted", fmt.Sprintf("%s, %s: the reference signature (valid by the scheme's definition) is not accepted", c.tag, hfName[c.hf]), fmt.Sprintf("x.verify 16 %s %s %s", hx(c.msg), hx(want), hx(ref.pk)))
+		g.counts["corpus:"+c.tag[:strings.LastIndex(c.tag, "-")]]++
+		mu.Unlock()
+	})
 }
 
 func genC04(g *gen) {
@@ -422,6 +564,7 @@ func genC04(g *gen) {
 		g.check(v == "ok true", "valid-accepted", "valid signature not accepted: "+v, g.ops[len(g.ops)-1])
 	}
 	// valid triples at every height 4 … 30 and each hash function (crafted through the model; no key of that size is built)
+	g.corpusSignatures()
 	g.note("valid triples at heights 4..30")
 	hts := []int{4, 8, 10, 14, 16, 18, 22, 26, 30}
 	if g.thorough {
@@ -453,6 +596,58 @@ func genC04(g *gen) {
 		bm[g.rng.Intn(len(bm))] ^= 0x40
 		bl := fmt.Sprintf("x.verify 16 %s %s %s", hx(bm), hx(t.sig), hx(t.pk[:]))
 		g.check(execOp(g.st, bl) == "ok false", "other-message-rejected", fmt.Sprintf("height %d: accepted for another message", t.h), bl)
+	}
+	// the Winternitz parameters 4 and 256 (the library never signs with them; valid triples come from the model), and
+	// calls with different parameters following one another in every order: what one call leaves behind (a parameter
+	// set, a scratch buffer) must not reach the next
+	g.note("valid triples for w = 4 and w = 256; calls with different parameters in mixed order")
+	{
+		var mixed []string
+		want := map[string]string{}
+		add := func(line, expect, kind, what string) {
+			out := g.op("%s", line)
+			g.check(out == expect, kind, what+": "+out, line)
+			mixed = append(mixed, line)
+			want[line] = out
+		}
+		for _, w := range []int{4, 256} {
+			for _, t := range g.craftedTriplesW(w, []int{4, 12}) {
+				line := fmt.Sprintf("x.verify %d %s %s %s", w, hx(t.msg), hx(t.sig), hx(t.pk[:]))
+				add(line, "ok true", "valid-accepted", fmt.Sprintf("a valid signature for w=%d, height %d, %s is not accepted", w, t.h, hfName[t.hf]))
+				bad := append([]byte{}, t.sig...)
+				bad[40+g.rng.Intn(len(bad)-40)] ^= 4
+				add(fmt.Sprintf("x.verify %d %s %s %s", w, hx(t.msg), hx(bad), hx(t.pk[:])), "ok false", "sig-bitflip-rejected", fmt.Sprintf("w=%d: a signature with one flipped bit is accepted", w))
+			}
+		}
+		for _, t := range ts[:2] {
+			add(fmt.Sprintf("x.verify 16 %s %s %s", hx(t.msg), hx(t.sig), hx(t.pk[:])), "ok true", "valid-accepted", "valid signature not accepted")
+			for _, w := range []int{4, 256} { // well-sized garbage for the other parameters under the same key
+				ks := map[int]int{4: 133 * 32, 256: 34 * 32}[w]
+				add(fmt.Sprintf("x.verify %d %s %s %s", w, hx(t.msg), hx(g.bytes(36+ks+32*t.h)), hx(t.pk[:])), "ok false", "garbage-rejected", fmt.Sprintf("w=%d: random bytes of the right size are accepted", w))
+			}
+		}
+		for round := 0; round < 6; round++ {
+			for _, i := range g.rng.Perm(len(mixed)) {
+				out := execOp(g.st, mixed[i])
+				g.check(out == want[mixed[i]], "order-independent", "a verification gives a different result after verifications with other Winternitz parameters: "+trunc(mixed[i], 50)+" => "+out, mixed[i])
+			}
+		}
+		// in fresh processes whose first call uses w = 4 / 256 / 16
+		for _, first := range []int{4, 256, 16} {
+			var script []string
+			for _, l := range mixed {
+				if strings.HasPrefix(l, fmt.Sprintf("x.verify %d ", first)) {
+					script = append(script, l)
+					break
+				}
+			}
+			script = append(script, mixed...)
+			got := freshProcess(script)
+			g.check(len(got) >= len(script), "order-independent", "a fresh process running verifications failed", script...)
+			for i := 0; i < len(script) && i < len(got); i++ {
+				g.check(got[i] == want[script[i]], "order-independent", fmt.Sprintf("in a fresh process whose first call uses w=%d a verification gives another result: %s => %s", first, trunc(script[i], 50), got[i]), script[0], script[i])
+			}
+		}
 	}
 	// many genuine signatures (implementation only): the WOTS checksum of the message digest takes its rarer values too
 	// (a verifier-side slip in the checksum digits shows for a per-cent of the messages); each must verify, and each
@@ -679,6 +874,7 @@ func genC06(g *gen) {
 	// many keys and signatures against the independent full-tree reference in Go (ref_xmss.go): every index of small
 	// trees, message digests of every shape (WOTS digits and checksums are data dependent), sequential signing and
 	// jumps, a byte boundary of the index at h = 10
+	g.corpusSignatures()
 	g.note("keys and signatures vs an independent full-tree reference, many seeds and messages")
 	{
 		type job struct {
@@ -715,9 +911,17 @@ func genC06(g *gen) {
 			for cnt := 0; idx < n && cnt < 96; cnt++ {
 				msg := make([]byte, rng.Intn(40))
 				rng.Read(msg)
-				sig, err := x.Sign(msg)
+				if cnt%3 == 1 { // an unrelated verification with another Winternitz parameter must leave the key alone
+					guard(func() string {
+						xmss.VerifyWithCustomWOTSParamW(msg, make([]byte, []int{4420, 1252}[cnt%2]+32*(j.h-4)), pk, uint32([]int{4, 256}[cnt%2]))
+						return ""
+					})
+				}
+				var sig []byte
+				var err error
+				pr := guard(func() string { sig, err = x.Sign(msg); return "ok" })
 				want := ref.sign(uint32(idx), msg)
-				ok := err == nil && bytes.Equal(sig, want)
+				ok := pr == "ok" && err == nil && bytes.Equal(sig, want)
 				mu.Lock()
 				g.check(ok, "sign-vs-reference", fmt.Sprintf("h=%d %s index %d: the signature differs from the full-tree reference (seed %s, msg %s)", j.h, hfName[j.hf], idx, hx(j.seed), hx(msg)),
 					fmt.Sprintf("xs.sign %s %d %d %d %s", hx(j.seed), j.h, j.hf, idx, hx(msg)))
